@@ -131,13 +131,29 @@ package protocol
 //@   ensures [C05 unsupported] !(dataCoding == 0 || dataCoding == 1 || dataCoding == 3 || dataCoding == 8) ==> err == datacoding.ErrUnsupportedDataCoding
 //@   ensures [C05 onerror] err != nil ==> newContent == source
 
-// The decoder selected by a coding number inverts the encoder selected by the same number, GIVEN the inverse law of the
-// assumed x/text codecs (hypotheses = assumption A-XTEXT; ASCII needs none).
+// The decoder selected by a coding number inverts the encoder selected by the same number, for valid UTF-8 text c, GIVEN
+// the inverse law of the assumed x/text codecs (the hypotheses below = assumption A-XTEXT, checked bounded by the
+// thorough tier's validator over every Unicode scalar value; ASCII needs none). Invalid UTF-8 is outside the property
+// (x/text replaces it by U+FFFD without an error, so the law does not hold there), hence utf8valid(c).
+//@ uninterpreted utf8valid(Bytes) bool
 //@ lemma cmpp_decoders_invert_encoders(c Bytes)
 //@   props C05
-//@   requires gbok(c) ==> gbdok(gbenc(c)) && gbdec(gbenc(c)) == c
-//@   requires ucs2ok(c) ==> ucs2dok(ucs2enc(c)) && ucs2dec(ucs2enc(c)) == c
+//@   requires utf8valid(c)
+//@   requires utf8valid(c) && gbok(c) ==> gbdok(gbenc(c)) && gbdec(gbenc(c)) == c
+//@   requires utf8valid(c) && ucs2ok(c) ==> ucs2dok(ucs2enc(c)) && ucs2dec(ucs2enc(c)) == c
 //@   ensures [C05 ascii] cmppok(0, c) ==> datacoding.isascii(cmppenc(0, c)) && cmppenc(0, c) == c
 //@   ensures [C05 gbk] cmppok(15, c) ==> gbdok(cmppenc(15, c)) && gbdec(cmppenc(15, c)) == c
 //@   ensures [C05 ucs2] cmppok(8, c) ==> ucs2dok(cmppenc(8, c)) && ucs2dec(cmppenc(8, c)) == c
 //@   ensures [C05 ucs2nosign] cmppok(9, c) ==> ucs2dok(cmppenc(9, c)) && ucs2dec(cmppenc(9, c)) == c
+
+// Same for the SMPP numbers (0: unpacked GSM 7-bit through the stream transformer, 1: ASCII, 3: Latin-1, 8: UCS-2).
+//@ lemma smpp_decoders_invert_encoders(c Bytes)
+//@   props C05
+//@   requires utf8valid(c)
+//@   requires utf8valid(c) && latin1ok(c) ==> latin1dok(latin1enc(c)) && latin1dec(latin1enc(c)) == c
+//@   requires utf8valid(c) && ucs2ok(c) ==> ucs2dok(ucs2enc(c)) && ucs2dec(ucs2enc(c)) == c
+//@   requires utf8valid(c) && gsmok(c) ==> gsmdok(gsmenc(c)) && gsmdec(gsmenc(c)) == c
+//@   ensures [C05 ascii] smppok(1, c) ==> datacoding.isascii(smppenc(1, c)) && smppenc(1, c) == c
+//@   ensures [C05 latin1] smppok(3, c) ==> latin1dok(smppenc(3, c)) && latin1dec(smppenc(3, c)) == c
+//@   ensures [C05 ucs2] smppok(8, c) ==> ucs2dok(smppenc(8, c)) && ucs2dec(smppenc(8, c)) == c
+//@   ensures [C05 gsm7] smppok(0, c) ==> gsmdok(smppenc(0, c)) && gsmdec(smppenc(0, c)) == c
